@@ -40,6 +40,7 @@ def dedupe(ctx, traces, out):
     # the kind of a failing member's error and error messages are not read by the specification
     # (a failure is a failure): runs that differ only there are validated once, too
     strip = re.compile(r'"errkind":\[[^\]]*\],?|"spin":\d+,?|"desc":\[[^\]]*\],?|"msg":"(?:[^"\\]|\\.)*",?')
+    strip2 = re.compile(r'"content":\[[^\]]*\],?|"clen":\[[^\]]*\],?')
     seen = {}
     uniq = {}
     hdr = None
@@ -48,7 +49,11 @@ def dedupe(ctx, traces, out):
         hdr = hdr or h
         for s in scen:
             k = '\n'.join(s)
-            rep = seen.setdefault(strip.sub('', k), k)
+            key = strip.sub('', k)
+            if '"op":"readobs"' not in k:
+                # the content's length is only read by the specification where the caller reads
+                key = strip2.sub('', key)
+            rep = seen.setdefault(key, k)
             uniq[rep] = uniq.get(rep, 0) + 1
     vlib.write_trace(out, hdr, [k.split('\n') for k in uniq])
     return uniq
